@@ -100,3 +100,12 @@ def check(ctx):
               "float(min(1.0,max(0.0,truth)))" in t, "T9-fixtruth", ft, "FixTruth: None/True -> 1.0, False -> 0.0, else clamp to [0, 1]", "")
     defect_scope(ctx, "D-scope", [A[k][0] for k in A] + [ft, ctx.cls("arbiting", "Arbiter").own_method("GoodTruth")], max_depth=1, floor=6,
                  label="scope: arbiter update methods")
+    # sufficiency: an input can become the selection only if it is selected AND its truth is strictly above the default truth
+    for cn in ("ArbiterPriority", "ArbiterTrusted"):
+        up = ctx.cls("arbiting", cn).own_method("update")
+        U = FuncView(ctx, up)
+        picks = [n for n in U.stores("inputmax") if isinstance(n.ast, ast.Assign) and not (isinstance(n.ast.value, ast.Constant) and n.ast.value.value is None)]
+        U.need(picks, "assignments of the selected input in %s.update" % cn)
+        ok = all({"self.insels.fetch(tag)", "self.FixTruth(input.truth) > self.default.truth"} <= U.symfacts(p) for p in picks)
+        ctx.check(ok, "T9-compare", up, "%s: every selection is guarded by `sel` and `truth > self.default.truth` (strict)" % cn,
+                  "an input whose truth merely equals the default truth (or that is not selected) can displace the default output")
